@@ -282,7 +282,13 @@ func (f *Font) WidthsPDF() []float64 {
 	switch outlines := f.Outlines.(type) {
 	case *cff.Outlines:
 		for gid, g := range outlines.Glyphs {
-			widths[gid] = g.Width * f.FontMatrix[0]
+			fm := f.FontMatrix
+			if outlines.IsCIDKeyed() {
+				// the per-FD font matrix is applied before the font matrix,
+				// as in GlyphWidthPDF and GlyphBBoxPDF
+				fm = outlines.FontMatrices[outlines.FDSelect(glyph.ID(gid))].Mul(f.FontMatrix)
+			}
+			widths[gid] = g.Width * fm[0]
 		}
 		return widths
 	case *glyf.Outlines:
